@@ -421,6 +421,10 @@ def run(ctx):
                                                               ([[17 - r, 0, 0, 16, text_items("er")]] if r > 1 else [])]]
             for dbl in ("none", "all"):
                 progs.append(("sweep", p, "edm-inline", dbl, "plain"))
+    for r in range(1, 15):                                        # an indent-0-form preamble code ends italics like any other
+        for p in ([False, [[[r, 0, 0, 14, text_items("it")], [r + 1, 0, 0, 16, text_items("pl")]]]],
+                  [False, [[[r + 1, 0, 0, 15, text_items("it")], [r, 0, 0, 17, text_items("pl")]]]]):
+            progs.append(("sweep", p, "edm-inline", "all", "plain"))
     dist["sweep_programs"] = len(progs)
     for p in enum_programs():
         for dbl in ("none", "all"):
